@@ -112,6 +112,9 @@ void h_rel(void) {
     struct snap snb0; snapshot_list(sb, &snb0);
     lltd_iface_state sb_before = *sb;
 #endif
+#if REL_MODE == 3
+    g_ctx_guard = (void *)&g_cfgA;
+#endif
     uint8_t *rx1 = make_frame(in.frame, g_cfgA.mtu);
 #if REL_MODE == 2
     {   /* history . Reset */
